@@ -57,8 +57,6 @@ def gen_history(rng, f, ch, ty, lowzero, nops, depth_seed, route):
             if "open=NULL" in out:
                 return "SKIP" if mode == "rw" else "open for %s failed: %s" % (mode, out)
             kv = abscheck.parse_kv(out)
-            if mode != "w" and int(kv.get("frames", -1)) == F + 1 and G.pad_frames(f, ch) and (F * ch) % 2 == 1:
-                return "KF:KF-AIFF-ODD-PAD"      # class: AIFF, 1-byte samples, odd byte total; signature: exactly one extra frame
             if mode != "w" and int(kv.get("frames", -1)) != F:
                 return "open (%s) reports %s frames, the file holds %d" % (mode, kv.get("frames"), F)
             return None
@@ -193,8 +191,6 @@ def gen_history(rng, f, ch, ty, lowzero, nops, depth_seed, route):
     def chk_all(out, want=want, F=F):
         kv = abscheck.parse_kv(out)
         got = abscheck.split_items(kv.get("data", ""), ty)
-        if kv.get("ret") == str((F + 1) * ch) and G.pad_frames(f, ch) and (F * ch) % 2 == 1 and got[:F * ch] == want:
-            return "KF:KF-AIFF-ODD-PAD"
         if kv.get("ret") != str(F * ch):
             return "a fresh open reads %s items, the final sequence has %d frames" % (kv.get("ret"), F)
         if got[:F * ch] != want:
